@@ -945,6 +945,20 @@ type aggregate struct {
 	aggregations []*gripql.Aggregate
 }
 
+// aggNumber returns the numeric value of a field for the numeric aggregations.
+// Numbers and numeric text count; null, booleans, lists and maps do not.
+func aggNumber(val interface{}) (float64, bool) {
+	switch val.(type) {
+	case nil, bool:
+		return 0, false
+	}
+	fval, err := cast.ToFloat64E(val)
+	if err != nil {
+		return 0, false
+	}
+	return fval, true
+}
+
 func (agg *aggregate) Process(ctx context.Context, man gdbi.Manager, in gdbi.InPipe, out gdbi.OutPipe) context.Context {
 	aChans := make(map[string](chan gdbi.Traveler))
 	g, ctx := errgroup.WithContext(ctx)
@@ -1049,9 +1063,10 @@ func (agg *aggregate) Process(ctx context.Context, man gdbi.Manager, in gdbi.InP
 				for t := range aChans[a.Name] {
 					val := jsonpath.TravelerPathLookup(t, hagg.Field)
 					if val != nil {
-						fval, err := cast.ToFloat64E(val)
-						if err != nil {
-							outErr = fmt.Errorf("histogram aggregation: can't convert %v to float64", val)
+						fval, ok := aggNumber(val)
+						if !ok {
+							// values that are not numbers are not part of the histogram
+							continue
 						}
 						fieldValues = append(fieldValues, fval)
 						if c > maxValues {
@@ -1059,6 +1074,12 @@ func (agg *aggregate) Process(ctx context.Context, man gdbi.Manager, in gdbi.InP
 						}
 						c++
 					}
+				}
+				if len(fieldValues) == 0 {
+					return outErr
+				}
+				if i <= 0 {
+					return fmt.Errorf("histogram aggregation: interval must be greater than zero")
 				}
 				sort.Float64s(fieldValues)
 				min := fieldValues[0]
@@ -1084,14 +1105,20 @@ func (agg *aggregate) Process(ctx context.Context, man gdbi.Manager, in gdbi.InP
 				percents := pagg.Percents
 
 				var outErr error
+				count := 0
 				td := tdigest.New()
 				for t := range aChans[a.Name] {
 					val := jsonpath.TravelerPathLookup(t, pagg.Field)
-					fval, err := cast.ToFloat64E(val)
-					if err != nil {
-						outErr = fmt.Errorf("percentile aggregation: can't convert %v to float64", val)
+					fval, ok := aggNumber(val)
+					if !ok {
+						// values that are not numbers do not take part in the percentiles
+						continue
 					}
 					td.Add(fval, 1)
+					count++
+				}
+				if count == 0 {
+					return outErr
 				}
 
 				for _, p := range percents {
